@@ -17,6 +17,8 @@ def register(reg):
     iface.register(reg)
     for m in MODULES:
         m.register(reg)
+        if hasattr(m, "register_lifecycle"):
+            m.register_lifecycle(reg)
         for k in ("LEVEL", "EXPLAIN", "REPLAY"):
             globals()[k].update(getattr(m, k, {}))
         for p, lst in getattr(m, "BOUNDED", {}).items():
@@ -29,6 +31,38 @@ def register(reg):
             for x in lst:
                 if x not in ASSUMPTIONS[p]:
                     ASSUMPTIONS[p].append(x)
+    apply_depends(reg)
+
+
+# Units a property depends on beyond the ones written for it: the check of property P runs every unit whose target matches
+# (lesson of the seeded changes: an edit is usually caught by the unit of the function it touches, so that unit has to be part of
+# the check of every property that relies on the function)
+DEPENDS = [
+    (("finam.schedule._find_dependencies", "Composition._update_recursive", "Composition.run", "finam.schedule._get_start_time"),
+     ("C01", "C02", "C03", "C04", "C05", "C13", "C20")),
+    (("finam.adapters.time.Delay", "finam.sdk.adapter.TimeDelayAdapter", "finam.adapters.time.TimeDelayAdapter"), ("C01", "C02", "C04", "C09", "C13")),
+    (("finam.sdk.input.Input.", "finam.sdk.input.CallbackInput."), ("C05", "C07", "C08", "C15", "C17", "C20")),
+    (("finam.data.tools.info.Info.",), ("C05", "C06", "C07", "C15", "C17", "C18")),
+    (("StructuredGrid.compatible_with", "StructuredGrid.__eq__", "grid_spec.NoGrid."), ("C07", "C15")),
+    (("finam.data.tools.mask.masks_", "finam.data.tools.mask.mask_specified"), ("C07", "C18")),
+    (("finam.data.tools.units.",), ("C07", "C08", "C17")),
+    (("finam.sdk.output.Output.", "finam.sdk.output.CallbackOutput."), ("C01", "C05", "C08", "C09", "C10", "C20")),
+    (("finam.adapters.time.TimeCachingAdapter", "finam.adapters.time_integration.", "finam.sdk.adapter.Adapter."), ("C09", "C10", "C11", "C12")),
+    (("finam.tools.connect_helper.",), ("C04", "C05", "C06")),
+    (("Composition.connect", "Composition._connect_components", "Composition._validate_composition"), ("C03", "C04", "C05", "C06", "C10", "C19")),
+    (("Composition._finalize_components", "Composition._check_status", "finam.sdk.component.Component."), ("C03", "C10")),
+]
+
+
+def apply_depends(reg):
+    for c in reg.units:
+        have = {p.split(".")[0] for p in c.props}
+        for pats, props in DEPENDS:
+            if any(pat in c.target for pat in pats):
+                for p in props:
+                    if p not in have:
+                        c.props.append(f"{p}.dep")
+                        have.add(p)
 
 
 def install(ex):
